@@ -560,7 +560,8 @@ class Gen:
 
     def f_matmul(self) -> int:
         op = self.rng.choice(["matmul", "matmul", "dot", "vdot"])
-        x = self.pick(lambda i: self.dtype(i).kind in "iufc" and 1 <= self.v(i).ndim <= 3)
+        maxnd = 4 if op == "matmul" else 3      # 4-d @ 3-d: batch axes of unequal rank
+        x = self.pick(lambda i: self.dtype(i).kind in "iufc" and 1 <= self.v(i).ndim <= maxnd)
         if x is None:
             x = self.new_input(self.rand_shape(self.rng.choice([1, 2])), self.rand_dtype("ifc"),
                                "unit")
@@ -585,7 +586,8 @@ class Gen:
         elif want_nd == 2:
             shp = (k, self.rand_len())
         else:
-            lead = xs[0] if len(xs) == 3 else self.rng.randrange(1, 4)
+            lead = xs[0] if len(xs) == 3 else (xs[1] if len(xs) == 4
+                                               else self.rng.randrange(1, 4))
             shp = (lead, k, self.rand_len())
         y = self.pick_or_new(pred, shape=shp, dtype=self.rand_dtype("ifc"), pool="unit",
                              p_new=0.5)
